@@ -105,6 +105,15 @@ def noserver_upstream_block(tier, fam="F-noserver-block", ps=True, preempt=True,
     return out
 
 
+def per_class_per_node_reneging(tier, fam="F-renege"):
+    """patience per class AND per node: A is patient at node 1 only, B at node 2 only (node 2 is a reneging node for B)"""
+    K = 3 if tier == "quick" else 4
+    return [cfg("renege per class per node", fam, [node(c=1), node(c=1)],
+                {"A": klass([ARR, None], [[1.0, 0.5], [3.0, 1.0]], renege=[[1.0, 2.5], None], route=matrix([[0.0, 1.0], [0.0, 0.0]])),
+                 "B": klass([None, {"values": [1.0, 2.0], "budget": 2}], [[1.0], [3.0, 1.0]], renege=[None, PAT], route=matrix([[0.0, 0.0], [0.0, 0.0]]))},
+                K=K, T=14.0, D=5 if tier == "quick" else 8, features=["reneging", "classes"])]
+
+
 def ageing_priorities(tier, fam="F-ageing"):
     """three priority levels, timed class changes A -> B -> C (a customer can change priority twice while waiting)"""
     out = []
